@@ -34,7 +34,7 @@ Lemma Inv_assemble (V w' : world) (id : Z) (data synced : bytes) :
   NoDup (map rkey (db w')) -> pairwise disjoint (db w') ->
   Forall (fun kf => H (fdata (snd kf)) = fst kf) (loose w') ->
   get_pack w' id = Some (mkFile data synced) ->
-  (forall id', id' <> id -> get_pack w' id' = get_pack V id') ->
+  (forall r, In r (db w') -> rpack r <> id -> get_pack w' (rpack r) = get_pack V (rpack r)) ->
   (forall r, In r (db w') -> rpack r <> id -> row_ok H inflate V r) ->
   (forall r, In r (db w') -> rpack r = id -> row_ok_d data r) ->
   Inv w'.
@@ -44,7 +44,20 @@ Proof.
   destruct (Z.eq_dec (rpack r) id) as [E|E].
   - exists (mkFile data synced). rewrite E. split; [exact Hp|]. apply Hr2; auto.
   - destruct (proj1 (row_ok_iff V r) (Hr1 r Hin E)) as (f & Hpf & Hd). exists f. split; [|exact Hd].
-    rewrite Ho; auto.
+    rewrite (Ho r Hin E). exact Hpf.
+Qed.
+
+(* the common case: every other pack is unchanged *)
+Lemma Inv_assemble' (V w' : world) (id : Z) (data synced : bytes) :
+  NoDup (map rkey (db w')) -> pairwise disjoint (db w') ->
+  Forall (fun kf => H (fdata (snd kf)) = fst kf) (loose w') ->
+  get_pack w' id = Some (mkFile data synced) ->
+  (forall id', id' <> id -> get_pack w' id' = get_pack V id') ->
+  (forall r, In r (db w') -> rpack r <> id -> row_ok H inflate V r) ->
+  (forall r, In r (db w') -> rpack r = id -> row_ok_d data r) ->
+  Inv w'.
+Proof.
+  intros A B C D E F G. apply (Inv_assemble V w' id data synced); auto.
 Qed.
 
 Lemma get_pack_pl w id : get_pack (power_loss w) id = option_map pl_file (get_pack w id).
@@ -134,7 +147,7 @@ Qed.
 
 (* ---- what a key reads back as is determined by the index and the loose map, given the invariant ---- *)
 Definition Rel (X Y : world) : Prop :=
-  (forall r, In r (db X) -> In r (db Y)) /\
+  (forall k, In k (map rkey (db X)) -> In k (map rkey (db Y))) /\
   (forall k f, get_loose X k = Some f -> (exists f', get_loose Y k = Some f' /\ fdata f' = fdata f) \/ In k (map rkey (db Y))).
 
 Lemma Rel_refl X : Rel X X.
@@ -148,7 +161,9 @@ Proof.
   { intros r Hin Hrk. destruct (manual_recovery H inflate Y r IY Hin) as (c' & Hst & Hh & _).
     rewrite Hrk in *. rewrite Hst. f_equal. apply H_inj. congruence. }
   unfold Store.stored in Hs. destruct (find_row (db X) k) as [r|] eqn:F.
-  - apply find_row_some in F as [Hin Hrk]. apply (HinY r); auto.
+  - apply find_row_some in F as [Hin Hrk].
+    assert (HkY : In k (map rkey (db Y))) by (apply Rr; rewrite <- Hrk; apply in_map; exact Hin).
+    apply in_map_iff in HkY as (r' & Hrk' & Hin'). apply (HinY r'); auto.
   - destruct (get_loose X k) as [f|] eqn:Hg; [|discriminate]. inversion Hs; subst c.
     destruct (Rl _ _ Hg) as [(f' & Hg' & Ef)|Hin].
     + destruct (find_row (db Y) k) as [r|] eqn:FY.
@@ -175,7 +190,7 @@ Lemma ext_Inv w w' id data synced :
   Inv w -> ext w w' id data synced -> prefix_of (Dof w id) data -> Inv w'.
 Proof.
   intros HI (El & Ed & Ep & Eo) Hpre. pose proof HI as (Hnd & Hok & Hpw & Hl).
-  apply (Inv_assemble w w' id data synced); try (rewrite ?Ed, ?El; assumption).
+  apply (Inv_assemble' w w' id data synced); try (rewrite ?Ed, ?El; assumption).
   - intros r Hin _. rewrite Ed in Hin. rewrite Forall_forall in Hok. auto.
   - intros r Hin E. rewrite Ed in Hin. rewrite Forall_forall in Hok.
     destruct (proj1 (row_ok_iff w r) (Hok r Hin)) as (f & Hp & Hd).
@@ -207,7 +222,7 @@ Lemma ext_Inv_pl_synced w w' id data :
 Proof.
   intros HI HP E Hpre. pose proof (ext_pl _ _ _ _ _ E) as (El & Ed & Ep & Eo).
   pose proof HP as (Hnd & Hok & Hpw & Hl). pose proof HI as (_ & Hok0 & _).
-  apply (Inv_assemble (power_loss w) (power_loss w') id data data); try (rewrite ?Ed, ?El; assumption).
+  apply (Inv_assemble' (power_loss w) (power_loss w') id data data); try (rewrite ?Ed, ?El; assumption).
   - intros r Hin _. rewrite Ed in Hin. rewrite Forall_forall in Hok. auto.
   - intros r Hin Er. rewrite Ed in Hin. cbn [db power_loss] in Hin. rewrite Forall_forall in Hok0.
     destruct (proj1 (row_ok_iff w r) (Hok0 r Hin)) as (f & Hp & Hd).
@@ -457,11 +472,11 @@ Proof.
   { intros r Hin Ne. apply in_app_or in Hin as [Hin|Hin]; [exact Hin|]. destruct (HR r Hin) as (Hrp & _). congruence. }
   split; [|split].
   - (* live invariant *)
-    apply (Inv_assemble H inflate w w5 id (Dof w id ++ B) X); unfold w5; cbn [db set_db loose]; auto.
+    apply (Inv_assemble' H inflate w w5 id (Dof w id ++ B) X); unfold w5; cbn [db set_db loose]; auto.
     + rewrite El. exact Hl0.
     + intros r Hin Ne. rewrite Forall_forall in Hok0. apply Hok0. apply Hrows_other; auto.
   - split.
-    + intros r Hr. unfold w5; cbn [db set_db]. apply in_or_app. left; exact Hr.
+    + intros k Hk. unfold w5; cbn [db set_db]. rewrite map_app. apply in_or_app. left; exact Hk.
     + intros k f Hg. left. exists f. unfold get_loose, w5 in *. cbn [loose set_db]. rewrite El. auto.
   - (* power loss: the appended bytes were synced before the commit *)
     intros F P. specialize (HX F). subst X.
@@ -470,12 +485,12 @@ Proof.
     assert (Epl : power_loss w5 = set_db (power_loss w4) (db w ++ R)) by reflexivity.
     split.
     + rewrite Epl.
-      apply (Inv_assemble H inflate (power_loss w) (set_db (power_loss w4) (db w ++ R)) id (Dof w id ++ B) (Dof w id ++ B));
+      apply (Inv_assemble' H inflate (power_loss w) (set_db (power_loss w4) (db w ++ R)) id (Dof w id ++ B) (Dof w id ++ B));
         cbn [db set_db loose]; auto.
       * rewrite Elp. exact Pl.
       * intros r Hin Ne. rewrite Forall_forall in Pok. apply Pok. cbn [db power_loss]. apply Hrows_other; auto.
     + split.
-      * intros r Hr. cbn [db power_loss] in *. unfold w5; cbn [db set_db]. apply in_or_app. left; exact Hr.
+      * intros k Hk. cbn [db power_loss] in *. unfold w5; cbn [db set_db]. rewrite map_app. apply in_or_app. left; exact Hk.
       * intros k f Hg. left. exists f. unfold get_loose in *. rewrite Epl. cbn [loose set_db]. rewrite Elp. auto.
 Qed.
 
